@@ -20,13 +20,24 @@ Oracle (libxml2 decides lexical validity; python-pptx is not consulted):
                without an exception (only forms admitted by the type of an attribute the library
                really declares with that class are demanded: the fairness rule of the property).
 
+* equivalent forms => two lexical forms that the standard defines as the same value read to the same Python
+               value within the quantum (differential, no hand-written expected value): 'N%' vs N*1000
+               (DrawingML percentage unions) or vs N (chart percentage unions), universal measures vs EMU
+               (coordinate unions), 'true'/'false' vs '1'/'0', '+5' / '005' vs '5', double notations;
+* history   => the verdict (accepted + written form | rejected) on a value does not depend on what was
+               written before it: every class's alphabet (which holds each integer bound together with its
+               equal float, Fraction and, for 0/1, bool twins) is walked forwards in one pristine forked
+               process and backwards in another, and the two verdict maps must be identical. The parent
+               process never exercises the library itself; replays also run in forked children.
+
 Signatures (the last field names the failure, not the witness value, so that one root cause gives one
 signature in both tiers; the first witness in alphabet order and the other failing values are in `what`)
     C11|<rule>|*|<class>|<key>              class-level: fails for every XSD type the class is used with
     C11|<rule>|@<xsd type(s)>|<class>|<key> attribute-level: all declarations that use <class> for an attribute
                                             of that XSD type (the affected tag@attr are listed in `what`)
     C11|enum-unreadable|<Enum>|<token>      schema enumeration token the library enum cannot read
-rule in accepted-invalid, readback, reject-type, reject-mutated, unreadable; <key> is "->'<written form>'"
+(for the read-back of an enum <class> is Enum.MEMBER: a different member failing is a different signature)
+rule in accepted-invalid, readback, reject-type, reject-mutated, unreadable, read-differs, history; <key> is "->'<written form>'"
 (accepted-invalid; readback of enums), "str", "number", "<py type>-><exception>" (reject-type) or the lexical
 alternative that cannot be read (integer, percent, percent-decimal, measure-<unit>, boolean-word, double, hex,
 empty, token, or a literal enumeration token). An attribute-level failure whose (rule, class, key) is already
@@ -43,15 +54,17 @@ from __future__ import annotations
 import importlib
 import inspect
 import math
+import multiprocessing as mp
 import numbers
 import os
 import pkgutil
 import re
 from decimal import Decimal
+from fractions import Fraction
 
 from lxml import etree
 
-from mc.core.parallel import fanout
+from mc.core.parallel import fanout, ncpu
 from mc.core.run import HarnessError
 from mc.oracles import xsd as X
 
@@ -81,6 +94,12 @@ ASSUMPTIONS = [
     "(overloaded tags: weak rule); a written form must be valid for AT LEAST ONE candidate type",
     "whitespace-padded lexical forms and integers beyond +-2**64 are not explored",
     "an attribute removed by the setter (value equals the declared default) is checked by read-back only",
+    "equivalences used by the differential reading oracle are the standard's: DrawingML percentages are in 1000ths "
+    "of a percent ('90%' == '90000'), chart percentages are whole percents ('150%' == '150'), 1 in = 914400 EMU, "
+    "1 pt = 12700, 1 cm = 360000, 1 mm = 36000, 1 pc = 1 pi = 152400; applied only where libxml2 accepts both forms "
+    "for all candidate XSD types of the attribute",
+    "history check is per simple-type class (two pristine forked processes, forward and backward alphabet walk); "
+    "attribute-level history and cross-class history are not explored",
 ]
 
 XS = X.XS
@@ -210,6 +229,34 @@ class Schemas:
             ms = [self._resolve(u, m) for m in (u.get("memberTypes") or "").split()]
             return ms or None
         return None
+
+    def flat(self, t, _seen=None):
+        """t, its union members and restriction bases, transitively."""
+        seen = _seen if _seen is not None else set()
+        if t in seen:
+            return seen
+        seen.add(t)
+        if t[0] == XS:
+            return seen
+        node = self.stnode(t)
+        if node is None:
+            return seen
+        for n in node.iter():
+            if not isinstance(n.tag, str):
+                continue
+            loc = etree.QName(n.tag).localname
+            if loc == "restriction" and n.get("base"):
+                self.flat(self._resolve(n, n.get("base")), seen)
+            elif loc == "union":
+                for m in (n.get("memberTypes") or "").split():
+                    self.flat(self._resolve(n, m), seen)
+        return seen
+
+    def has_percent_pattern(self, t):
+        node = self.stnode(t)
+        if node is None:
+            return False
+        return any("%" in (p.get("value") or "") for p in node.iter(X.X + "pattern"))
 
     def bounds(self, t):
         """Every integer that plays a role in the definition of t (facets, builtin limits, pattern digits)."""
@@ -456,6 +503,8 @@ def mk(spec):
         return (1,)
     if t == "object":
         return object()
+    if t == "fraction":
+        return Fraction(int(spec["v"]))
     if t == "emu":
         from pptx.util import Emu
         return Emu(int(spec["v"]))
@@ -545,6 +594,12 @@ def alphabet(S, K, types, thorough):
             vals.append(_f(x))
     vals.append(("True", {"t": "bool", "v": True}))
     vals.append(("False", {"t": "bool", "v": False}))
+    # equal-but-differently-typed twins of the integers (history check: the verdict on a value must not depend
+    # on an equal value of another type having been written before it)
+    for b in sorted(LB | {int(c) for c in consts if float(c).is_integer()}):
+        if abs(b) < 2 ** 53:
+            vals.append(_f(float(b)))
+            vals.append(("Fraction(%d)" % b, {"t": "fraction", "v": str(b)}))
     vals.append(("None", {"t": "none"}))
     strs = list(STRING_POOL)
     toks = []
@@ -651,6 +706,8 @@ class Model:
         self._alpha = {}
         self._rpool = {}
         self._dpool = {}
+        self._cpairs = {}
+        self._dpairs = {}
         self._decl_by_key = {(d.tagname, d.prop): d for d in self.decls}
 
     def alpha(self, name):
@@ -679,6 +736,17 @@ class Model:
                 cands.update(self.S.pool(t, self.radius))
             self._dpool[k] = sorted((s for s in cands if all(self.S.ok(t, s) for t in d.types)), key=lex_order)
         return self._dpool[k]
+
+    def class_pairs(self, name):
+        if name not in self._cpairs:
+            self._cpairs[name] = equiv_pairs(self.S, self.rtypes[name]) if self.rtypes[name] else []
+        return self._cpairs[name]
+
+    def decl_pairs(self, d):
+        k = tuple(d.types)
+        if k not in self._dpairs:
+            self._dpairs[k] = equiv_pairs(self.S, d.types)
+        return self._dpairs[k]
 
     def preset(self, d):
         pool = self.decl_read_pool(d)
@@ -711,16 +779,19 @@ def model(thorough):
     return _MODELS[thorough]
 
 
-# ---- case evaluators: each returns (outcome label, [(rule, key, message)]) ---------------------------------
+# ---- case evaluators: each returns (outcome label, [(rule, subject, key, message)], ...) -------------------
 #
-# `key` is the part of the signature that names the failure independently of the witness value, so that
-# one root cause gives one signature in both tiers:
+# `subject` is the class name (for the read-back of an enum: Class.MEMBER, so that a different member failing is
+# a different signature). `key` names the failure independently of the witness value, so that one root cause
+# gives one signature in both tiers:
 #   accepted-invalid   "->'<written form>'" (numbers, bools, enum members) | "str" (strings pass through)
 #   readback           "->'<written form>'" for enums | "str" | "number" | type name
 #   reject-type        "<python type>-><exception type>"
-#   reject-mutated     "<python type>"
+#   reject-mutated     "*"
 #   unreadable         lexical alternative: integer | percent | percent-decimal | measure-<unit> |
 #                      boolean-word | double | hex | empty | token, or the literal enumeration token
+#   read-differs       "<alternative>~<alternative>" of two forms the schema defines as equivalent
+#   history            python type of the value whose verdict depends on what was written before it
 
 def _vkey(K, v, s):
     if isinstance(v, str):
@@ -730,6 +801,15 @@ def _vkey(K, v, s):
     if isinstance(v, (int, float)):
         return "number"
     return type(v).__name__
+
+
+def _subject(K, name, v):
+    """Class.MEMBER for a value that denotes a member of enum K, else the class name."""
+    if _is_enum(K) and isinstance(v, (int, float)) and not isinstance(v, str):
+        for m in K:
+            if int(m) == v:
+                return "%s.%s" % (name, m.name)
+    return name
 
 
 _RE_INT = re.compile(r"[+-]?\d+\Z")
@@ -764,32 +844,102 @@ def lex_order(s):
     return (s == "", s)
 
 
+# ---- lexical forms the schema (and the standard's prose for its unions) defines as equivalent ---------------------
+
+PCT_SEEDS = ["0", "1", "5", "-5", "8", "50", "90", "100", "-100", "150", "300", "500", "1000", "12.5", "-12.5",
+             "1.25", "99.99", "100.00", "0.5"]
+EMU_PER = {"in": 914400, "pt": 12700, "cm": 360000, "mm": 36000, "pc": 152400, "pi": 152400}
+UM_SEEDS = [("1", "in"), ("72", "pt"), ("2.54", "cm"), ("25.4", "mm"), ("6", "pc"), ("6", "pi"), ("-1", "in"),
+            ("1.5", "pt"), ("0", "pt"), ("0.5", "in"), ("100", "mm"), ("-1.5", "cm"), ("0.05", "pc"), ("1", "pi")]
+INT_SEEDS = ["0", "1", "2", "5", "8", "50", "100", "256", "1000", "914400", "1828800", "2147483647", "-1", "-5",
+             "-100", "-914400"]
+INT_BUILTINS = ("byte", "short", "int", "long", "integer", "unsignedByte", "unsignedShort", "unsignedInt",
+                "unsignedLong", "nonNegativeInteger", "positiveInteger")
+DBL_PAIRS = [("1.5", "1.50"), ("1e3", "1000"), ("1E-3", "0.001"), ("5.", "5"), (".5", "0.5"), ("1.0e+16", "1e16"),
+             ("-1.5", "-1.50"), ("0.0", "0")]
+
+
+def equiv_pairs(S, types):
+    """[(a, b, key)]: both forms valid for ALL `types` and equal in the value space the standard defines:
+    'N%' == N thousandths of a percent (DrawingML percentages) or == N (chart percentages); universal
+    measures == EMU for the coordinate unions; 'true' == '1'; '+5' == '5' == '005'; double notations."""
+    def ok(x):
+        return all(S.ok(t, x) for t in types)
+    flat = set()
+    for t in types:
+        flat |= S.flat(t)
+    free = any(S.is_free(t) for t in types)
+    names = {t[1] for t in flat}
+    out = []
+    if any(S.has_percent_pattern(t) for t in flat):
+        factor = 1 if any(t[0] == X.NS_C for t in types) else 1000
+        for n in PCT_SEEDS:
+            d = Decimal(n) * factor
+            if d != d.to_integral_value():
+                continue
+            a, b = n + "%", str(int(d))
+            if ok(a) and ok(b):
+                out.append((a, b, lex_category(S, types, a) + "~integer"))
+            z = ("-00" + n[1:] if n.startswith("-") else "00" + n) + "%"
+            if ok(a) and ok(z):
+                out.append((a, z, "percent~percent"))
+    if "ST_UniversalMeasure" in names and names & {"ST_CoordinateUnqualified", "ST_Coordinate32Unqualified"}:
+        for q, u in UM_SEEDS:
+            d = Decimal(q) * EMU_PER[u]
+            if d != d.to_integral_value():
+                continue
+            a, b = q + u, str(int(d))
+            if ok(a) and ok(b):
+                out.append((a, b, "measure-%s~integer" % u))
+    if (XS, "boolean") in flat:
+        for a, b in (("true", "1"), ("false", "0")):
+            if ok(a) and ok(b):
+                out.append((a, b, "boolean-word~integer"))
+    if not free and any(t[0] == XS and t[1] in INT_BUILTINS for t in flat):
+        for n in INT_SEEDS:
+            if not ok(n):
+                continue
+            sign, digits = ("-", n[1:]) if n.startswith("-") else ("", n)
+            for v in ([("+" + n)] if not sign else []) + [sign + "00" + digits]:
+                if ok(v):
+                    out.append((n, v, "integer~integer"))
+    if (XS, "double") in flat:
+        for a, b in DBL_PAIRS:
+            if ok(a) and ok(b):
+                out.append((a, b, "double~double"))
+    return out
+
+
 def class_write(M, name, spec):
+    """-> (outcome, fails, verdict) with verdict 'accepted:<written>' | 'rejected:<Exc>' | 'raised:<Exc>'."""
     K = M.by_name[name]
     v = mk(spec)
     try:
         s = K.to_xml(v)
     except (TypeError, ValueError) as e:
-        return "rejected:" + type(e).__name__, []
+        return "rejected:" + type(e).__name__, [], "rejected:" + type(e).__name__
     except Exception as e:
-        return "raised:" + type(e).__name__, [("reject-type", "%s->%s" % (type(v).__name__, type(e).__name__),
+        return "raised:" + type(e).__name__, [("reject-type", name, "%s->%s" % (type(v).__name__, type(e).__name__),
                                                "%s.to_xml(%s) raised %s: %s (TypeError/ValueError required)"
-                                               % (name, _short(v), type(e).__name__, e))]
+                                               % (name, _short(v), type(e).__name__, e))], "raised:" + type(e).__name__
+    verdict = "accepted:%r" % (s,)
     types = M.wtypes[name]
     tn = ",".join(t[1] for t in types)
     if not isinstance(s, str) or not any(M.S.ok(t, s) for t in types):
         key = "str" if isinstance(v, str) else "->%r" % (s,)
-        return "accepted", [("accepted-invalid", key, "%s.to_xml(%s) -> %r, not a valid lexical form of %s"
-                             % (name, _short(v), s, tn))]
+        return "accepted", [("accepted-invalid", name, key, "%s.to_xml(%s) -> %r, not a valid lexical form of %s"
+                             % (name, _short(v), s, tn))], verdict
+    subj = _subject(K, name, v)
     try:
         r = K.from_xml(s)
     except Exception as e:
-        return "accepted", [("readback", _vkey(K, v, s), "%s.to_xml(%s) -> %r (valid for %s) but from_xml raised %s: %s"
-                             % (name, _short(v), s, tn, type(e).__name__, e))]
+        return "accepted", [("readback", subj, _vkey(K, v, s),
+                             "%s.to_xml(%s) -> %r (valid for %s) but from_xml raised %s: %s"
+                             % (name, _short(v), s, tn, type(e).__name__, e))], verdict
     if not same(name, v, r):
-        return "accepted", [("readback", _vkey(K, v, s), "%s.to_xml(%s) -> %r reads back %s"
-                             % (name, _short(v), s, _short(r)))]
-    return "accepted", []
+        return "accepted", [("readback", subj, _vkey(K, v, s), "%s.to_xml(%s) -> %r reads back %s"
+                             % (name, _short(v), s, _short(r)))], verdict
+    return "accepted", [], verdict
 
 
 def class_read(M, name, s):
@@ -799,52 +949,91 @@ def class_read(M, name, s):
     except Exception as e:
         rule = M.read_rule(name)
         key = repr(s) if rule == "enum-unreadable" else lex_category(M.S, M.rtypes[name], s)
-        return "raised:" + type(e).__name__, [(rule, key, "%s.from_xml(%r) raised %s: %s; the form is valid for %s"
+        return "raised:" + type(e).__name__, [(rule, name, key, "%s.from_xml(%r) raised %s: %s; the form is valid for %s"
                                                % (name, s, type(e).__name__, e,
                                                   ",".join(t[1] for t in M.rtypes[name])))]
     return "read", []
+
+
+def _pair_verdict(kname, types, S, a, b, key, ra, rb, what):
+    """ra/rb are ('ok', value) | ('exc', exception)."""
+    for form, r in ((a, ra), (b, rb)):
+        if r[0] == "exc":
+            e = r[1]
+            return "raised:" + type(e).__name__, [("unreadable", kname, lex_category(S, types, form),
+                                                   "%s %r raised %s: %s; the form is valid for %s"
+                                                   % (what, form, type(e).__name__, e, ",".join(t[1] for t in types)))]
+    if not same(kname, ra[1], rb[1]) or not same(kname, rb[1], ra[1]):
+        return "differs", [("read-differs", kname, key,
+                            "%s: %r reads %s but the equivalent %r reads %s (both valid for %s)"
+                            % (what, a, _short(ra[1]), b, _short(rb[1]), ",".join(t[1] for t in types)))]
+    return "equal", []
+
+
+def _try(fn):
+    try:
+        return ("ok", fn())
+    except Exception as e:
+        return ("exc", e)
+
+
+def class_read_pair(M, name, a, b, key):
+    K = M.by_name[name]
+    return _pair_verdict(name, M.rtypes[name], M.S, a, b, key, _try(lambda: K.from_xml(a)), _try(lambda: K.from_xml(b)),
+                         "%s.from_xml" % name)
+
+
+def attr_read_pair(M, d, a, b, key):
+    ra = _try(lambda: getattr(M.new_el(d, a), d.prop))
+    rb = _try(lambda: getattr(M.new_el(d, b), d.prop))
+    return _pair_verdict(d.st_name, d.types, M.S, a, b, key, ra, rb, "<%s %s=...>.%s (%s)"
+                         % (d.tagname, d.attr_name, d.prop, d.st_name))
 
 
 def attr_write(M, d, spec, preset):
     el = M.new_el(d, M.preset(d) if preset else None)
     before = etree.tostring(el, method="c14n")
     v = mk(spec)
-    where = "<%s>.%s (@%s, %s)" % (d.tagname, d.prop, d.attr_name, d.st_name)
+    name = d.st_name
+    where = "<%s>.%s (@%s, %s)" % (d.tagname, d.prop, d.attr_name, name)
     try:
         setattr(el, d.prop, v)
     except (TypeError, ValueError) as e:
         after = etree.tostring(el, method="c14n")
         if after != before:
-            return "rejected", [("reject-mutated", "*", "%s = %s raised %s but changed the element: %s -> %s"
+            return "rejected", [("reject-mutated", name, "*", "%s = %s raised %s but changed the element: %s -> %s"
                                  % (where, _short(v), type(e).__name__, before.decode(), after.decode()))]
         return "rejected:" + type(e).__name__, []
     except Exception as e:
-        return "raised:" + type(e).__name__, [("reject-type", "%s->%s" % (type(v).__name__, type(e).__name__),
+        return "raised:" + type(e).__name__, [("reject-type", name, "%s->%s" % (type(v).__name__, type(e).__name__),
                                                "%s = %s raised %s: %s (TypeError/ValueError required)"
                                                % (where, _short(v), type(e).__name__, e))]
     s = el.get(d.clark)
     tn = ",".join(t[1] for t in d.types)
+    subj = _subject(d.st, name, v)
     if s is None:
         try:
             r = getattr(el, d.prop)
         except Exception as e:
-            return "removed", [("readback", _vkey(d.st, v, None), "%s = %s removed the attribute and reading raised %s: %s"
+            return "removed", [("readback", subj, _vkey(d.st, v, None),
+                                "%s = %s removed the attribute and reading raised %s: %s"
                                 % (where, _short(v), type(e).__name__, e))]
-        if not same(d.st_name, v, r):
-            return "removed", [("readback", _vkey(d.st, v, None), "%s = %s removed the attribute; reads back %s"
+        if not same(name, v, r):
+            return "removed", [("readback", subj, _vkey(d.st, v, None), "%s = %s removed the attribute; reads back %s"
                                 % (where, _short(v), _short(r)))]
         return "removed", []
     if not any(M.S.ok(t, s) for t in d.types):
         key = "str" if isinstance(v, str) else "->%r" % (s,)
-        return "accepted", [("accepted-invalid", key, "%s = %s wrote %s=%r, not a valid lexical form of %s"
+        return "accepted", [("accepted-invalid", name, key, "%s = %s wrote %s=%r, not a valid lexical form of %s"
                              % (where, _short(v), d.attr_name, s, tn))]
     try:
         r = getattr(el, d.prop)
     except Exception as e:
-        return "accepted", [("readback", _vkey(d.st, v, s), "%s = %s wrote %r (valid for %s) but reading raised %s: %s"
+        return "accepted", [("readback", subj, _vkey(d.st, v, s),
+                             "%s = %s wrote %r (valid for %s) but reading raised %s: %s"
                              % (where, _short(v), s, tn, type(e).__name__, e))]
-    if not same(d.st_name, v, r):
-        return "accepted", [("readback", _vkey(d.st, v, s), "%s = %s wrote %r which reads back %s"
+    if not same(name, v, r):
+        return "accepted", [("readback", subj, _vkey(d.st, v, s), "%s = %s wrote %r which reads back %s"
                              % (where, _short(v), s, _short(r)))]
     return "accepted", []
 
@@ -854,7 +1043,7 @@ def attr_read(M, d, s):
     try:
         getattr(el, d.prop)
     except Exception as e:
-        return "raised:" + type(e).__name__, [("unreadable", lex_category(M.S, d.types, s),
+        return "raised:" + type(e).__name__, [("unreadable", d.st_name, lex_category(M.S, d.types, s),
                                                "<%s %s=%r>.%s raised %s: %s; the form is valid for %s"
                                                % (d.tagname, d.attr_name, s, d.prop, type(e).__name__, e,
                                                   ",".join(t[1] for t in d.types)))]
@@ -862,6 +1051,10 @@ def attr_read(M, d, s):
 
 
 # ---- run ------------------------------------------------------------------------------------------------------
+#
+# The parent process never calls to_xml/from_xml or an element property itself: every case runs in a forked
+# child, so that each child starts from the same pristine library state (needed by the history check, which
+# walks every class's alphabet forwards in one child and backwards in another and compares the verdicts).
 
 _M = None
 _CLASS_VIOL = frozenset()
@@ -890,15 +1083,16 @@ class _Found:
             part.violation(sig, msg, rp)
 
 
-def _sig_class(rule, name, key):
+def _sig_class(rule, subject, key):
     if rule == "enum-unreadable":
-        return "C11|enum-unreadable|%s|%s" % (name, key)
-    return "C11|%s|*|%s|%s" % (rule, name, key)
+        return "C11|enum-unreadable|%s|%s" % (subject, key)
+    return "C11|%s|*|%s|%s" % (rule, subject, key)
 
 
 def _class_level(ctx, M):
+    """Forward walk. -> (violation keys, verdicts {(class, label): verdict})."""
     viol = set()
-    n_expected = 0
+    verdicts = {}
     found = _Found()
     for name in sorted(M.by_name):
         K = M.by_name[name]
@@ -906,38 +1100,120 @@ def _class_level(ctx, M):
             ctx.add("classes_without_xsd_type", name)
             continue
         if _writable(K):
-            al = M.alpha(name)
-            n_expected += len(al)
-            for label, spec in al:
+            for label, spec in M.alpha(name):
                 ctx.count("evaluations")
                 ctx.count("class_write_cases")
-                out, fails = class_write(M, name, spec)
+                out, fails, verdict = class_write(M, name, spec)
+                verdicts[(name, label)] = verdict
                 ctx.outcome("to_xml:" + name, out)
                 if out == "accepted":
                     ctx.count("nontrivial_count")
-                for rule, key, msg in fails:
-                    viol.add((rule, name, key))
-                    found.add(_sig_class(rule, name, key), msg,
+                for rule, subj, key, msg in fails:
+                    viol.add((rule, subj, key))
+                    found.add(_sig_class(rule, subj, key), msg,
                               {"kind": "class_write", "cls": name, "label": label, "spec": spec, "rule": rule,
                                "key": key}, label)
         else:
             ctx.add("classes_read_only", name)
-        pool = M.class_read_pool(name)
-        n_expected += len(pool)
         if not M.rtypes[name]:
             ctx.add("classes_not_declared_on_any_attribute", name)
-        for s in pool:
+        for s in M.class_read_pool(name):
             ctx.count("evaluations")
             ctx.count("class_read_cases")
             ctx.count("nontrivial_count")
             out, fails = class_read(M, name, s)
             ctx.outcome("from_xml:" + name, out)
-            for rule, key, msg in fails:
-                viol.add((rule, name, key))
-                found.add(_sig_class(rule, name, key), msg,
+            for rule, subj, key, msg in fails:
+                viol.add((rule, subj, key))
+                found.add(_sig_class(rule, subj, key), msg,
                           {"kind": "class_read", "cls": name, "s": s, "rule": rule, "key": key}, repr(s))
+        for a, b, key in M.class_pairs(name):
+            ctx.count("evaluations")
+            ctx.count("class_equivalent_pair_cases")
+            ctx.count("nontrivial_count")
+            out, fails = class_read_pair(M, name, a, b, key)
+            ctx.outcome("from_xml-pair:" + name, out)
+            for rule, subj, k2, msg in fails:
+                viol.add((rule, subj, k2))
+                found.add(_sig_class(rule, subj, k2), msg,
+                          {"kind": "class_pair", "cls": name, "a": a, "b": b, "key": key, "rule": rule},
+                          "%r~%r" % (a, b))
     found.emit(ctx)
-    return viol, n_expected
+    return viol, verdicts
+
+
+def _n_class_level(M):
+    n = nw = 0
+    for name in sorted(M.by_name):
+        if not M.wtypes[name]:
+            continue
+        if _writable(M.by_name[name]):
+            nw += len(M.alpha(name))
+        n += len(M.class_read_pool(name)) + len(M.class_pairs(name))
+    return n + nw, nw
+
+
+def _child_forward(_):
+    from mc.core.run import Partial
+    part = Partial()
+    viol, verdicts = _class_level(part, _M)
+    return part, viol, verdicts
+
+
+def _child_reverse(_):
+    """Backward walk of every class's alphabet in a pristine process: only the verdicts are wanted."""
+    M = _M
+    verdicts = {}
+    for name in sorted(M.by_name, reverse=True):
+        if not M.wtypes[name] or not _writable(M.by_name[name]):
+            continue
+        for label, spec in reversed(M.alpha(name)):
+            verdicts[(name, label)] = class_write(M, name, spec)[2]
+    return verdicts
+
+
+def _child_attr_all(_):
+    from mc.core.run import Partial
+    part = Partial()
+    _attr_level(part, list(range(len(_GROUPS))))
+    return part
+
+
+def _in_children(jobs):
+    """Run each (fn, arg) in its own process forked from this (pristine) one; results in order."""
+    ctx = mp.get_context("fork")
+    with ctx.Pool(min(len(jobs), max(2, ncpu())), maxtasksperchild=1) as pool:
+        rs = [pool.apply_async(fn, (arg,)) for fn, arg in jobs]
+        return [r.get() for r in rs]
+
+
+def _history_case(args):
+    """One value w of class `cls`: verdict when it is the first thing written, then write its equal-valued
+    peers, then the verdict again."""
+    name, wspec, peers = args
+    M = _M or model(False)
+    v1 = class_write(M, name, wspec)[2]
+    for p in peers:
+        class_write(M, name, p)
+    v2 = class_write(M, name, wspec)[2]
+    return v1, v2
+
+
+def _peers(M, name, label):
+    al = M.alpha(name)
+    spec = dict(al)[label]
+    w = mk(spec)
+    out = []
+    for l2, s2 in al:
+        if l2 == label:
+            continue
+        try:
+            x = mk(s2)
+            if type(x) is not object and x == w and not isinstance(x, str):
+                out.append(s2)
+        except Exception:
+            pass
+    return spec, out
 
 
 def _attr_level(part, chunk):
@@ -961,11 +1237,11 @@ def _attr_level(part, chunk):
                     part.outcome("set:" + d.key, out)
                     if out in ("accepted", "removed"):
                         part.count("nontrivial_count")
-                    for rule, key, msg in fails:
-                        if (rule, d.st_name, key) in _CLASS_VIOL:
+                    for rule, subj, key, msg in fails:
+                        if (rule, subj, key) in _CLASS_VIOL:
                             part.count("folded_into_class_level")
                             continue
-                        found.add("C11|%s|%s|%s|%s" % (rule, target, d.st_name, key), msg,
+                        found.add("C11|%s|%s|%s|%s" % (rule, target, subj, key), msg,
                                   {"kind": "attr_write", "tag": d.tagname, "prop": d.prop, "label": label,
                                    "spec": spec, "preset": preset, "rule": rule, "key": key},
                                   "%s=%s" % (d.key, label))
@@ -975,13 +1251,26 @@ def _attr_level(part, chunk):
                 part.count("nontrivial_count")
                 out, fails = attr_read(M, d, s)
                 part.outcome("get:" + d.key, out)
-                for rule, key, msg in fails:
-                    if (rule, d.st_name, key) in _CLASS_VIOL or ("enum-unreadable", d.st_name, repr(s)) in _CLASS_VIOL:
+                for rule, subj, key, msg in fails:
+                    if (rule, subj, key) in _CLASS_VIOL or ("enum-unreadable", subj, repr(s)) in _CLASS_VIOL:
                         part.count("folded_into_class_level")
                         continue
-                    found.add("C11|%s|%s|%s|%s" % (rule, target, d.st_name, key), msg,
+                    found.add("C11|%s|%s|%s|%s" % (rule, target, subj, key), msg,
                               {"kind": "attr_read", "tag": d.tagname, "prop": d.prop, "s": s, "rule": rule,
                                "key": key}, "%s=%r" % (d.key, s))
+            for a, b, key in M.decl_pairs(d):
+                part.count("evaluations")
+                part.count("attr_equivalent_pair_cases")
+                part.count("nontrivial_count")
+                out, fails = attr_read_pair(M, d, a, b, key)
+                part.outcome("get-pair:" + d.key, out)
+                for rule, subj, k2, msg in fails:
+                    if (rule, subj, k2) in _CLASS_VIOL:
+                        part.count("folded_into_class_level")
+                        continue
+                    found.add("C11|%s|%s|%s|%s" % (rule, target, subj, k2), msg,
+                              {"kind": "attr_pair", "tag": d.tagname, "prop": d.prop, "a": a, "b": b, "key": key,
+                               "rule": rule}, "%s=%r~%r" % (d.key, a, b))
         found.emit(part)
 
 
@@ -1013,20 +1302,56 @@ def run(ctx):
     if len(M.no_type) > 3:
         raise HarnessError("attribute declarations without an XSD type: %s" % M.no_type)
 
-    viol, n_class = _class_level(ctx, M)
-    _CLASS_VIOL = frozenset(viol)
-
+    # everything the children need is computed here, before any fork (and before the library is exercised)
+    n_class, n_class_writes = _n_class_level(M)
     groups = {}
     n_attr = 0
     for i, d in enumerate(M.decls):
-        n_attr += 2 * len(M.alpha(d.st_name)) + len(M.decl_read_pool(d))
+        n_attr += 2 * len(M.alpha(d.st_name)) + len(M.decl_read_pool(d)) + len(M.decl_pairs(d))
         groups.setdefault((d.st_name, tuple(_tname(t) for t in d.types)), []).append(i)
     _GROUPS = sorted(groups.items())
-    order = ctx.rotate(range(len(_GROUPS)))
-    fanout(ctx, _attr_level, order, chunk_size=1)
+    n_pair_families = len({k.split("~")[0] for d in M.decls for _, _, k in M.decl_pairs(d)})
+    if sum(len(M.decl_pairs(d)) for d in M.decls) < 100 or n_pair_families < 8:
+        raise HarnessError("differential reading oracle is vacuous: too few equivalent pairs")
 
-    if ctx.counters.get("evaluations", 0) != n_class + n_attr:
-        raise HarnessError("evaluations %d != closed form %d" % (ctx.counters.get("evaluations", 0), n_class + n_attr))
+    # class level: forward and backward walk, each in its own pristine process
+    (part, viol, fwd), rev = _in_children([(_child_forward, 0), (_child_reverse, 0)])
+    ctx.merge(part)
+    ctx.count("evaluations", len(rev))
+    ctx.count("class_write_cases_reverse_order", len(rev))
+    if set(fwd) != set(rev) or len(rev) != n_class_writes:
+        raise HarnessError("forward and backward walks differ in their case sets (%d / %d / %d)"
+                           % (len(fwd), len(rev), n_class_writes))
+    hist = _Found()
+    for name in sorted(M.by_name):
+        if not M.wtypes[name] or not _writable(M.by_name[name]):
+            continue
+        for label, spec in M.alpha(name):
+            vf, vr = fwd[(name, label)], rev[(name, label)]
+            ctx.outcome("history:" + name, "same" if vf == vr else "differs")
+            if vf != vr:
+                spec, peers = _peers(M, name, label)
+                tname = type(mk(spec)).__name__
+                viol.add(("history", name, tname))
+                hist.add(_sig_class("history", name, tname),
+                         "%s.to_xml(%s): %s when the alphabet is walked forwards but %s when walked backwards; the "
+                         "verdict on a value must not depend on what was written before it"
+                         % (name, label, vf, vr),
+                         {"kind": "history", "cls": name, "label": label, "spec": spec, "peers": peers,
+                          "rule": "history"}, label)
+    hist.emit(ctx)
+    _CLASS_VIOL = frozenset(viol)
+
+    # attribute level
+    order = ctx.rotate(range(len(_GROUPS)))
+    if ncpu() <= 1:
+        ctx.merge(_in_children([(_child_attr_all, 0)])[0])
+    else:
+        fanout(ctx, _attr_level, order, chunk_size=1, min_parallel=1)
+
+    expected = n_class + n_class_writes + n_attr
+    if ctx.counters.get("evaluations", 0) != expected:
+        raise HarnessError("evaluations %d != closed form %d" % (ctx.counters.get("evaluations", 0), expected))
 
     ctx.extra["attribute_declarations"] = len(M.decls)
     ctx.extra["attribute_declarations_without_xsd_type"] = M.no_type
@@ -1036,36 +1361,58 @@ def run(ctx):
     ctx.extra["xml_enums_used_by_attributes"] = len(used_enums)
     ctx.extra["xsd_types_of_declared_attributes"] = len({t for d in M.decls for t in d.types})
     ctx.extra["alphabet_sizes"] = {n: len(M.alpha(n)) for n in sorted(M._alpha)}
+    ctx.extra["equivalent_pair_families"] = sorted({k for d in M.decls for _, _, k in M.decl_pairs(d)})
     d0 = M._decl_by_key.get(("a:lin", "ang")) or M.decls[0]
     ctx.sample({"decl": d0.key, "class": d0.st_name, "xsd": [t[1] for t in d0.types],
                 "values": [l for l, _ in M.alpha(d0.st_name)][:40], "lexical_forms_read": M.decl_read_pool(d0)[:20]})
     d1 = M._decl_by_key.get(("a:off", "x")) or M.decls[1]
     ctx.sample({"decl": d1.key, "class": d1.st_name, "xsd": [t[1] for t in d1.types],
-                "lexical_forms_read": M.decl_read_pool(d1)})
+                "lexical_forms_read": M.decl_read_pool(d1), "equivalent_pairs": M.decl_pairs(d1)})
     d2 = M._decl_by_key.get(("a:bodyPr", "anchor")) or M.decls[2]
     ctx.sample({"decl": d2.key, "class": d2.st_name, "xsd": [t[1] for t in d2.types],
                 "lexical_forms_read": M.decl_read_pool(d2)})
+    d3 = M._decl_by_key.get(("a:spcPct", "val")) or M.decls[3]
+    ctx.sample({"decl": d3.key, "class": d3.st_name, "xsd": [t[1] for t in d3.types],
+                "equivalent_pairs": M.decl_pairs(d3)})
 
 
 # ---- replay -------------------------------------------------------------------------------------------------------
 
-def replay(data):
+def _replay_child(data):
     kind = data["kind"]
     # evaluation of a single case does not depend on the tier (the tier only sizes the alphabets)
     M = _M or model(False)
+    if kind == "history":
+        v1, v2 = _history_case((data["cls"], data["spec"], data["peers"]))
+        if v1 != v2:
+            return ("%s.to_xml(%s): %s as the first value written, %s after its equal-valued peers were written"
+                    % (data["cls"], data["label"], v1, v2))
+        return None
     if kind == "class_write":
-        _, fails = class_write(M, data["cls"], data["spec"])
+        fails = class_write(M, data["cls"], data["spec"])[1]
     elif kind == "class_read":
         _, fails = class_read(M, data["cls"], data["s"])
-    elif kind in ("attr_write", "attr_read"):
+    elif kind == "class_pair":
+        _, fails = class_read_pair(M, data["cls"], data["a"], data["b"], data["key"])
+    elif kind in ("attr_write", "attr_read", "attr_pair"):
         d = M._decl_by_key.get((data["tag"], data["prop"]))
         if d is None:
             return None
         if kind == "attr_write":
             _, fails = attr_write(M, d, data["spec"], data["preset"])
-        else:
+        elif kind == "attr_read":
             _, fails = attr_read(M, d, data["s"])
+        else:
+            _, fails = attr_read_pair(M, d, data["a"], data["b"], data["key"])
     else:
         raise ValueError(kind)
-    msgs = [msg for rule, key, msg in fails if rule == data.get("rule", rule)]
+    msgs = [f[3] for f in fails if f[0] == data.get("rule", f[0])]
     return "; ".join(msgs) or None
+
+
+def replay(data):
+    """Each replay runs in a process forked from this one, so that replays do not share library state."""
+    global _M
+    if _M is None:
+        _M = model(False)
+    return _in_children([(_replay_child, data)])[0]
